@@ -2,6 +2,7 @@ package main
 
 import (
 	"fmt"
+	"golang.org/x/tools/go/ssa"
 	"regexp"
 	"strings"
 )
@@ -12,6 +13,7 @@ func init() {
 
 var chCaseRe = regexp.MustCompile(`^\(\$0\.ch == (-?\d+)\)$`)
 var peekCaseRe = regexp.MustCompile(`^\(\(\*lexer\.Lexer\)\.peekChar\(\$0\)(@\d+)? == -?\d+\)$`)
+var queueHelperRe = regexp.MustCompile(`^\(\*lexer\.Lexer\)\.(\w+)(?:\(\$0\))?@\d+(?:#\d+)?$`)
 var verRe = regexp.MustCompile(`!L\d+`)
 
 func c19g(c *Ctx) {
@@ -42,6 +44,26 @@ func c19g(c *Ctx) {
 				}
 				if strings.Contains(l, "builtin:len($0.queuedTokens)") || peekCaseRe.MatchString(l[1:]) {
 					continue
+				}
+				// "nothing is queued", asked through a helper that touches the queue and nothing else
+				if m := queueHelperRe.FindStringSubmatch(l[1:]); m != nil {
+					if h := c.W.Method("lexer", "Lexer", m[1]); h != nil {
+						onlyQueue := true
+						for _, w := range c.Eff().Writes(h) {
+							if w != "lexer.Lexer.queuedTokens" && !strings.HasPrefix(w, "elem:") {
+								onlyQueue = false
+							}
+						}
+						reads := false
+						instrs(h, func(in ssa.Instruction) {
+							if fa, ok := in.(*ssa.FieldAddr); ok && fieldName(fa.X.Type(), fa.Field) == "queuedTokens" {
+								reads = true
+							}
+						})
+						if onlyQueue && reads {
+							continue
+						}
+					}
 				}
 				rest = append(rest, l)
 			}
